@@ -142,6 +142,7 @@ var c04Decl = [][]string{
 	{"(def s$ \"abc\")", "(concat s$ \"d\")", "(len s$)", "(str 12)", "(sget s$ 1)", "`raw $`", "'c'"},
 	{"(def l$ (list 1 2 3))", "(first l$)", "(rest l$)", "(cons 0 l$)", "(map (fn [x] (* x x)) l$)", "(apply + l$)", "(quote (a b))", "%(1 2)"},
 	{"(include \"%DIR%/one.zy\" \"%DIR%/two.zy\")", "(+ 1 (include \"%DIR%/two.zy\"))", "(include [\"%DIR%/one.zy\" \"%DIR%/empty.zy\"])", "(include \"%DIR%/empty.zy\")", "(source \"%DIR%/one.zy\")", "(len [1 (begin) (newScope) 2])", "(+ 1 2 (or (begin) 4))", "(begin)", "(newScope)", "(def inc$ (include \"%DIR%/one.zy\" \"%DIR%/one.zy\" \"%DIR%/two.zy\"))", "inc$"},
+	{"(include \"%DIR%/one.zy\" \"%DIR%/empty.zy\")", "(include \"%DIR%/empty.zy\" \"%DIR%/two.zy\")", "(include [\"%DIR%/one.zy\" \"%DIR%/empty.zy\" \"%DIR%/two.zy\"])", "(include \"%DIR%/empty.zy\" \"%DIR%/empty.zy\")", "(+ 1 (include \"%DIR%/empty.zy\" \"%DIR%/two.zy\"))", "(source \"%DIR%/one.zy\" \"%DIR%/empty.zy\")", "(source \"%DIR%/empty.zy\" \"%DIR%/two.zy\")", "(def after$ 5)", "after$"},
 	{"(source \"%DIR%/one.zy\" \"%DIR%/two.zy\")", "(source [\"%DIR%/one.zy\" \"%DIR%/two.zy\"])", "(+ 1 (source \"%DIR%/two.zy\" \"%DIR%/one.zy\"))", "(source \"%DIR%/empty.zy\")", "(func g2$ [] [a:int64 b:int64])", "(g2$)", "(len (g2$))", "(func g1$ [] [a:int64])", "(g1$)", "(func g0$ [] [])", "(g0$)", "(len [1 (g0$) 2])", "(func r2$ [a:int64] [x:int64 y:int64] (return a (+ a 1)))", "(r2$ 4)", "(len (r2$ 4))"},
 	{"(def f$ (fn [a & r] (len r)))", "(f$ 1)", "(f$ 1 2 3)", "((fn [] 7))", "(let [k 2] (letseq [m k n (+ m 1)] (* m n)))", "(newScope (def inner$ 1) inner$)", "(begin 1 2 3)", "(and 1 2)", "(or 0 nil 3)"},
 }
@@ -350,7 +351,9 @@ func c04History(c *core.Ctx, i int) *core.Result {
 			tm := c04Decl[r.N(len(c04Decl))]
 			t = c04Subst(c, tm[r.N(len(tm))], fmt.Sprintf("h%dk%d", i, k))
 		case 1:
-			t = []string{"(+ 1", ")", "(undefined-fn 3)", "(aget [1] 9)", "(let)", "{1 +}", "(/ 1 0)", "(for [1 2] 3)", "\"open", "(break)"}[r.N(10)]
+			t = []string{"(+ 1", ")", "(undefined-fn 3)", "(aget [1] 9)", "(let)", "{1 +}", "(/ 1 0)", "(for [1 2] 3)", "\"open", "(break)",
+				"(for [(def i 0) (< i 3) (set i)] 1)", "(for [(def i 0) (< i) (def i (+ i 1))] 1)", "(for [(def) (< i 3) (def i (+ i 1))] 1)", "(for [(def i 0) (< i 3) (def i (+ i 1))] (let))", "(for L: [(def i 0) (< i 3) (cond)] 1)",
+				"{for i := 0; i < 3; (let) { 1 }}", "(defn brk [] (break))", "(continue L:)", "(range k v [1 2] (let))", "(defmac bad [] ^(~(let))) (bad)", "(package \"pk\" (let))", "(func bad [] [] (cond))"}[r.N(22)]
 		default:
 			g := &lang.G{R: core.NewRng(c.Seed, "C04h", i, k+1), C: lang.Cfg{Depth: 3, Pool: []string{"a", "b", "c"}, Data: true, HigherOrder: true, Variadic: true, Recursion: true, TrOneIn: 4}}
 			t = lang.Plain.Program(g.Program())
